@@ -240,6 +240,9 @@ def run(modname, fname, shards=((),), timeout=60.0, per_path_timeout=None, globs
     """Run harness `modname.fname` under CrossHair once per shard (in parallel)."""
     res = Result(f"{modname}.{fname}")
     t0 = time.time()
+    # shard time-outs are hard stops for runaway exploration, not part of the verdict: the enumerations are finite, so a
+    # generous multiple only matters on a loaded machine (where a tight stop would turn a decidable shard into 'inconclusive')
+    timeout = timeout * float(os.environ.get("VF_TIMEOUT_MULT", "3"))
     if per_path_timeout is None:
         per_path_timeout = max(10.0, timeout / 4)
     own = pool is None
